@@ -14,7 +14,7 @@ from . import c10
 ID = 'C18'
 LEVEL = 'model_checking'
 RULE = ('corpus: every clause shape with 0..3 variables that occur only inside head structures x 0..4 body-only variables '
-        'x 0..2 anonymous variables, heads in which 2..5 variables occur twice, the body trees with <= N operators in the C05 context, the repository\'s sample files, and 7 programs that are rejected at different stages (syntax, goal not callable, head name, too large, unsupported term). '
+        'x 0..2 anonymous variables, heads in which 2..5 variables occur twice, the body trees with <= N operators in the C05 context, the repository\'s sample files, [for (b) and (d) also the body trees with N+1 operators over {! o fail}], and 7 programs that are rejected at different stages (syntax, goal not callable, head name, too large, unsupported term). '
         '(a) environment exploration of set-iteration order: the names set/frozenset are shadowed in the compiler modules by '
         'an order-controlled stand-in; every call is a choice point and EVERY permutation of its elements is explored at '
         'one call site (thorough: at every pair of call sites), all other sites keeping insertion order - the output must '
@@ -70,6 +70,18 @@ def corpus(tier):
             ('fail-too-large', 'd(_, _) :- %s.\n' % ', '.join('g%d(_)' % i for i in range(25))),
             ('fail-unsupported-term', 'e(_, _, a/1).\n'),
             ('fail-head-true', 'f(_).\ntrue.\n')]
+    return out
+
+
+def corpus_wide(tier):
+    """the corpus of the process/seed runs (b) and the sweeps (d): additionally every body with one
+    more operator over a small alphabet (the set-order exploration (a) is too slow for these)"""
+    out = corpus(tier)
+    n = 2 if tier == 'quick' else 3
+    for i, t in enumerate(bodies.trees(n, ['!', 'o', 'fail'] if tier == 'quick' else ['!', 'o'])):
+        body, k = bodies.instantiate(t)
+        prog, _ = bodies.context_program(body, k)
+        out.append(('focus-tree-%d-%d' % (n, i), show_program(prog)))
     return out
 
 
@@ -252,7 +264,7 @@ import sys, json, hashlib
 sys.path.insert(0, %(verif)r)
 from mc.checks import c18
 out = {}
-for name, text in c18.corpus(%(tier)r):
+for name, text in c18.corpus_wide(%(tier)r):
     out[name] = c18.digest(c18.compile_or_exc(text))
 json.dump(out, sys.stdout)
 '''
@@ -305,7 +317,7 @@ def sweep_order(cp, order):
 
 
 def run_sweep(acc, tier, order):
-    cp = sweep_order(corpus(tier), order)
+    cp = sweep_order(corpus_wide(tier), order)
     base = zygote([[t] for _, t in cp])
     for i, (name, text) in enumerate(cp):
         d = digest(compile_or_exc(text))
@@ -335,7 +347,8 @@ NSH = 16
 
 def plan(tier):
     seeds = range(6 if tier == 'quick' else 16)
-    return [('set', tier, k, NSH) for k in range(NSH)] + [('seed', tier, s) for s in seeds] + [('hist', tier, k, NSH) for k in range(NSH)] + [('sweep', tier, o) for o in SWEEPS]
+    # the longest shards first
+    return [('sweep', tier, o) for o in SWEEPS] + [('hist', tier, k, NSH) for k in range(NSH)] + [('seed', tier, s) for s in seeds] + [('set', tier, k, NSH) for k in range(NSH)]
 
 
 def run_shard(spec):
@@ -352,9 +365,9 @@ def run_shard(spec):
         run_sweep(acc, spec[1], spec[2])
     elif spec[0] == 'seed':
         _, tier, seed = spec
-        mine = {name: digest(compile_or_exc(text)) for name, text in corpus(tier)}
+        mine = {name: digest(compile_or_exc(text)) for name, text in corpus_wide(tier)}
         other = run_seed(tier, seed)
-        texts = dict(corpus(tier))
+        texts = dict(corpus_wide(tier))
         for name, d in mine.items():
             acc.n['evaluations'] += 1
             acc.n['validated'] += 1
